@@ -24,6 +24,11 @@ def ext_call(eng, st, name, args, kwargs, node):
         eng.fr.assumed_used.add("AES-CBC (pycryptodome): uninterpreted, length preserving, decrypt inverts encrypt on "
                                 "block-aligned data, ValueError on unaligned data / bad key or IV length")
         return [(st, VConst(("aes", key, iv), "aescipher"))]
+    if name == "collections.Counter":
+        if not args:
+            raise Unsupported("empty Counter()")
+        src = eng.as_iseq(st, args[0], node)
+        return [(st, VConst(("counter", src), "counter"))]
     if name == "Crypto.Cipher:PKCS1_v1_5.new":
         from .values import box
         eng.fr.assumed_used.add("RSA PKCS#1 v1.5 (pycryptodome): decrypt(encrypt(m, pub), priv) = m for len(m) <= k - 11 and a "
